@@ -291,6 +291,7 @@ type c08Inst struct {
 	lastAPI    string      // API observation after this instance's last observed op ("" = unknown)
 	existed    [c08U]bool  // Exist(a) at the last transaction boundary
 	flushed    [c08U]int64 // hot address: slot values written to the storage trie by the last IntermediateRoot/Commit (= originStorage)
+	taint      [c08U]bool  // shadow oracle switched off for this account (self-destructed / re-created / empty at a boundary)
 }
 
 // c08Forced is one scripted step of a motif (see startMotif); it runs through the same code path,
@@ -441,6 +442,43 @@ func (c *c08Case) afterBoundary(in *c08Inst, del bool, created []int, root bool)
 	}
 	for i := 0; i < c08U; i++ {
 		in.existed[i] = in.s.Exist(c08Addr(i))
+	}
+}
+
+// shadow oracle (independent of the model and of the code under test): on an account that was never
+// self-destructed, re-created or empty at a transaction boundary, a storage slot reads as the LAST
+// effective (non-reverted) write to it — whatever Snapshot/Revert/Finalise/IntermediateRoot/Commit/
+// reopen/Copy happened in between. `hist` is the effective history (truncated on every revert).
+func (c *c08Case) taintBeforeBoundary(in *c08Inst) {
+	for i := 0; i < c08U; i++ {
+		if in.s.Empty(c08Addr(i)) || in.s.HasSuicided(c08Addr(i)) {
+			in.taint[i] = true
+		}
+	}
+}
+
+func (c *c08Case) shadowCheck(in *c08Inst, where string) {
+	if c.bad {
+		return
+	}
+	var want [c08U][c08U]int64
+	for _, op := range in.hist {
+		if op.kind == "sstore" {
+			want[op.a][op.k] = op.v
+		}
+	}
+	for a := 0; a < c08U; a++ {
+		if in.taint[a] {
+			continue
+		}
+		for k := 0; k < c08U; k++ {
+			got := in.s.GetState(c08Addr(a), c08Key(k))
+			if got != c08Word(want[a][k]) {
+				c.viol("c08-read-not-last-effective-write", fmt.Sprintf("%s: instance %d account %d slot %d reads %x, the last non-reverted write was %d", where, in.id, a, k, got.Bytes()[28:], want[a][k]))
+				return
+			}
+		}
+		c.o.Stat("oracle:shadow-storage")
 	}
 }
 
@@ -609,6 +647,7 @@ func (c *c08Case) commit(in *c08Inst, del bool, observe bool) {
 	}
 	hadSnap := in.s.snap != nil
 	created := c.emptyCreated(in)
+	c.taintBeforeBoundary(in)
 	var root common.Hash
 	var err error
 	if vfGuard(o, "c08-commit-panic", c.detail, func() { root, err = in.s.Commit(del) }) {
@@ -624,6 +663,7 @@ func (c *c08Case) commit(in *c08Inst, del bool, observe bool) {
 	c.boundary(in)
 	c.emit(in, observe, op.line(), "ok")
 	c.afterBoundary(in, del, created, true)
+	c.shadowCheck(in, "after commit")
 	o.Stat("op:commit")
 	// (ii) root of the effective history on a fresh state
 	if in.replayable {
@@ -688,6 +728,7 @@ func (c *c08Case) commit(in *c08Inst, del bool, observe bool) {
 		in.s = re
 		in.hist = append(in.hist, c08Op{kind: "reopen"})
 		c.emit(in, observe, "reopen", "ok")
+		c.shadowCheck(in, "after reopen")
 		if re.snap != nil {
 			o.Stat("op:reopen-snap")
 		} else {
@@ -824,6 +865,7 @@ func c08RunCase(o *vfOut, r *vfRand, idx int) {
 			}
 			in.marks = in.marks[:mi]
 			c.emit(in, observe, fmt.Sprintf("revert %d", m.id), "ok")
+			c.shadowCheck(in, fmt.Sprintf("after revert %d", m.id))
 			o.Stat("op:revert")
 			// (i)
 			if observe && m.api != "" {
@@ -841,11 +883,13 @@ func c08RunCase(o *vfOut, r *vfRand, idx int) {
 				op = f.op
 			}
 			created := c.emptyCreated(in)
+			c.taintBeforeBoundary(in)
 			st := op.apply(in.s)
 			in.hist = append(in.hist, op)
 			c.boundary(in)
 			c.emit(in, observe, op.line(), st)
 			c.afterBoundary(in, op.v == 1, created, false)
+			c.shadowCheck(in, "after "+op.line())
 			o.Stat("op:finalise")
 		case x < 23: // IntermediateRoot
 			op := c08Op{kind: "iroot", v: int64(r.Pick(1, 1, 1, 0))}
@@ -853,11 +897,13 @@ func c08RunCase(o *vfOut, r *vfRand, idx int) {
 				op = f.op
 			}
 			created := c.emptyCreated(in)
+			c.taintBeforeBoundary(in)
 			st := op.apply(in.s)
 			in.hist = append(in.hist, op)
 			c.boundary(in)
 			c.emit(in, observe, op.line(), st)
 			c.afterBoundary(in, op.v == 1, created, true)
+			c.shadowCheck(in, "after "+op.line())
 			o.Stat("op:iroot")
 		case x < 26: // Commit (+ reopen)
 			c.commit(in, !r.Chance(25), observe)
@@ -885,7 +931,7 @@ func c08RunCase(o *vfOut, r *vfRand, idx int) {
 				c.bad = true
 				break
 			}
-			ni := &c08Inst{id: c.next, s: cp, hist: append([]c08Op(nil), in.hist...), replayable: in.replayable && in.jops == 0, existed: in.existed, flushed: in.flushed}
+			ni := &c08Inst{id: c.next, s: cp, hist: append([]c08Op(nil), in.hist...), replayable: in.replayable && in.jops == 0, existed: in.existed, flushed: in.flushed, taint: in.taint}
 			if in.jops > 0 {
 				o.Stat("op:copy-midtx")
 			}
@@ -912,10 +958,16 @@ func c08RunCase(o *vfOut, r *vfRand, idx int) {
 			if f != nil {
 				op = f.op
 			}
+			if op.kind == "suicide" || op.kind == "create" {
+				in.taint[op.a] = true
+			}
 			st := op.apply(in.s)
 			in.hist = append(in.hist, op)
 			in.jops++
 			c.emit(in, observe, op.line(), st)
+			if observe {
+				c.shadowCheck(in, "after "+op.line())
+			}
 			o.Stat("op:" + op.kind)
 			if st == "panic" {
 				o.Stat("op:" + op.kind + "-panic")
